@@ -53,7 +53,26 @@ def run_verus(path, rlimit, multiple_errors, extra=()):
     cmd = ["verus", path, "--error-format=json", "--output-json", "--time", "--rlimit", str(rlimit),
            "--multiple-errors", str(multiple_errors), "--num-threads", "8"] + list(extra)
     env = dict(os.environ)
-    p = subprocess.run(cmd, capture_output=True, text=True, cwd=BUILD, env=env)
+    # wall-clock guard: a query the solver cannot finish is "undecided", never a hang (rlimit does not bound every z3 loop)
+    tmo = int(os.environ.get("VERIF_VERUS_TIMEOUT", "900"))
+    import signal
+    pp = subprocess.Popen(cmd, stdout=subprocess.PIPE, stderr=subprocess.PIPE, text=True, cwd=BUILD, env=env, start_new_session=True)
+    timed_out = False
+    try:
+        so, se = pp.communicate(timeout=tmo)
+    except subprocess.TimeoutExpired:
+        timed_out = True
+        try:
+            os.killpg(pp.pid, signal.SIGKILL)
+        except OSError:
+            pass
+        so, se = pp.communicate()
+    class _P:
+        pass
+    p = _P()
+    p.stdout, p.stderr, p.returncode = so, se, (124 if timed_out else pp.returncode)
+    if timed_out:
+        p.stderr += '\n{"level": "error", "message": "Resource limit (rlimit) exceeded: verus/z3 did not finish within %d s (wall clock)", "spans": []}\n' % tmo
     diags = []
     for ln in p.stderr.splitlines():
         ln = ln.strip()
